@@ -104,3 +104,6 @@ def sizefill(run, P):
 def consume(run, P):
     from rules import r_consume
     r_consume.run(run, P)
+def ownraw(run, P):
+    from rules import r_ownraw
+    r_ownraw.run(run, P)
